@@ -54,7 +54,12 @@ def run(c, prog):
                     n_mut += 1
                     op = cal.rsplit("::", 1)[-1]
                     inst = f"{fn.path}|{core.short(cal)}"
-                    if any(l in dom.get(i, ()) for l in live):
+                    # the decision to mutate depends on a liveness test made inside this critical section:
+                    # either the test dominates the mutation, or the mutation is control-dependent on a branch
+                    # whose condition is derived (explicitly or through a flag set under such a branch) from it
+                    seeds = {t2["dest"]["l"] for j, _c, _g, t2 in D.mir_calls(fn) if j in live and t2.get("dest")}
+                    _T, ctl = D.decision_taint(fn, cfg, seeds)
+                    if any(l in dom.get(i, ()) for l in live) or i in ctl:
                         c.ok(R, inst)
                     else:
                         c.violation(R, f"{fn.path}|{core.short(cal)}|no-liveness-test", f"{fn.path}: `{core.short(cal)}` on the intern table is not preceded, inside the same critical section, by a liveness test of the entry (Weak::upgrade/strong_count). The decision that the buffer is dead was taken before the lock was acquired, so a concurrent SharedString::new that re-populated the entry in between has its live entry removed — later equal strings allocate a second buffer", t.get("sp", ""), instance=inst)
